@@ -464,10 +464,8 @@ def r_predicate_lists(ck: Checker) -> None:
                 ok, how = True, "stored in the translator"
             elif isinstance(up, ast.AugAssign) and isinstance(up.op, ast.Sub):
                 ok, how = True, "set difference"
-            elif isinstance(up, ast.Assign) and func.short == "__main__:main":
-                ok, how = True, "option value"
-            elif isinstance(up, ast.Compare) and func.short == "__main__:main":
-                ok, how = True, "option test"
+            elif func.short == "__main__:main":
+                ok, how = True, "option value / test in main()"
             ck.add(f"use of {unparse(node)} as {how}", ok, func, node, f"`{short(unparse(up) if up is not None else '')}`", "iterating the declared predicate lists in order would let the (hash dependent) order of auto_detect_input reach the output", rule="C17.FLOW.predicate-lists")
     ck.need(uses >= 15, f"uses of the predicate lists found ({uses})")
 
